@@ -6,14 +6,14 @@ import stores_lib as sl
 
 PROP = "C04"
 CHECKER = "make -C /verif/coq Props/C04.vo (full .vo build of the cone) && coqc -Q /verif/coq GMQ Props/C04.v"
-CLAUSES = {"durable", "order", "phantom", "not-early", "deleted", "purged"}
+CLAUSES = {"durable", "order", "phantom", "not-early", "deleted", "purged", "length", "from"}
 
 
 def plan(quick, seed):
     return [("rec", dict(seed=seed, n=260 if quick else 3000, len=22 if quick else 40, safe=False)),
             ("rec", dict(seed=seed + 1, n=260 if quick else 3000, len=22 if quick else 40, safe=True)),
-            ("badger", dict(seed=seed + 2, n=8 if quick else 100, len=14, safe=False)),
-            ("badger", dict(seed=seed + 3, n=8 if quick else 100, len=14, safe=True)),
+            ("badger", dict(seed=seed + 2, n=16 if quick else 150, len=12, safe=False)),
+            ("badger", dict(seed=seed + 3, n=24 if quick else 150, len=12, safe=True)),
             ("bunt", dict(seed=seed + 4, n=20 if quick else 200, len=14, safe=False)),
             ("bunt", dict(seed=seed + 5, n=20 if quick else 200, len=14, safe=True))]
 
